@@ -21,7 +21,8 @@ package engine
 //@ func parseSQL(q string) (interface{}, error)
 //@   props C09 C18
 //@   ensures[wf; C18] err == nil ==> sql.stmtWF(result0)
-//@   loop 1 invariant tl.tokens == nil || fresh(tl.tokens)
+//@   loop 1 invariant (tl.tokens == nil || fresh(tl.tokens)) && sql.tsOK(ts)
+//@   loop 1 decreases sql.tsMeasure(ts)
 
 // ---- rows / fields shape (backbone of C18, C06) ----
 
